@@ -447,10 +447,16 @@ def finish(res, lean, level, search, signature_of=None, assumptions=None, extra_
         broken += lean.broken()
     if res.mismatches:
         broken.append(f"correspondence: {len(res.mismatches)} disagreement(s), first: {json.dumps(res.mismatches[0], default=str)[:400]}")
-    if (broken or concrete) and not concrete and search is not None:
+    def _listed(c):
+        sig = signature_of(c) if signature_of else None
+        return any(k.get("property") == res.pid and k.get("status") == "known" and sig is not None and k.get("signature") == sig for k in known.get("findings", []))
+
+    # search when something no longer checks and every concrete failure at hand is one the known-findings file already lists
+    # (a listed finding explains nothing about a proof obligation or a correspondence that broke)
+    if broken and all(_listed(c) for c in concrete) and search is not None:
         log("something is broken; searching the real code for a failing input …")
         try:
-            concrete = search() or []
+            concrete = concrete + (search() or [])
         except Timeout:
             raise
         except Exception as e:  # a crashing search must not hide the breakage
@@ -475,16 +481,13 @@ def finish(res, lean, level, search, signature_of=None, assumptions=None, extra_
                                       "failing": [c for c, _ in new][:5], "broken": broken})
         print(f"VIOLATION property={res.pid} replay={path}")
         rc = 1
-    elif broken and not listed:
+    elif broken:
         violations = 1
         path = write_replay(res.pid, {"property": res.pid, "kind": "no-failing-input-found", "seed": res.seed, "tier": res.tier,
                                       "no_longer_checks": broken, "mismatches": res.mismatches[:5],
                                       "build_log_tail": (lean.build_log[-3000:] if lean else "")})
         print(f"VIOLATION property={res.pid} replay={path} no-failing-input-found")
         rc = 1
-    elif broken and listed:
-        # breakage explained entirely by listed findings
-        rc = 0
     write_evidence(res, lean, level, extra_cov=extra_cov, assumptions=assumptions, violations=violations)
     log(f"{res.pid} {res.tier}: evaluations={res.evaluations} distinct_nontrivial={len(res.distinct)} "
         f"obligations={lean.obligations() if lean else 0}/{lean.discharged() if lean else 0} rc={rc} wall={time.time()-res.t0:.1f}s")
